@@ -538,7 +538,7 @@ func GenMW(r *rand.Rand, o MWGenOpts) *MWParams {
 			op.Set = map[string]int{}
 			for ci, col := range p.Cols {
 				if r.IntN(4) != 0 {
-					op.Set[col] = id*10 + ci
+					op.Set[col] = genVal(r, id, ci)
 				}
 			}
 		case k < 8:
@@ -546,11 +546,11 @@ func GenMW(r *rand.Rand, o MWGenOpts) *MWParams {
 			op.Set = map[string]int{}
 			for ci, col := range p.Cols {
 				if r.IntN(2) == 0 {
-					op.Set[col] = id*10 + ci
+					op.Set[col] = genVal(r, id, ci)
 				}
 			}
 			if len(op.Set) == 0 {
-				op.Set[p.Cols[r.IntN(ncols)]] = id * 10
+				op.Set[p.Cols[r.IntN(ncols)]] = genVal(r, id, 0)
 			}
 		default:
 			op.Op = "delete"
@@ -598,4 +598,13 @@ func GenMW(r *rand.Rand, o MWGenOpts) *MWParams {
 	p.Perm = r.IntN(3) != 0
 	p.Readers = 2 + r.IntN(2)
 	return p
+}
+
+// genVal: mostly a value unique to the statement (so a mismatch names the statement that won), but a third of
+// the time one of three small values, so that statements also assign a column the value it already holds.
+func genVal(r *rand.Rand, id, ci int) int {
+	if r.IntN(3) == 0 {
+		return r.IntN(3)
+	}
+	return id*10 + ci
 }
